@@ -604,6 +604,23 @@ class OpsMixin(object):
         if isinstance(base, SeqV) and base.kind in ("family",) and hi is None:
             l = cint(lo)
             return SeqV("family", var=base.var, lo=base.lo + l, hi=base.hi, elem=base.elem)
+        if isinstance(base, SeqV) and base.kind == "family":
+            l, h = cint(lo), cint(hi)
+            if (l is None or l >= 0) and (h is None or h >= 0):
+                # positions counted from the front: [lo + l, min(hi, lo + h))
+                new_lo = base.lo + (l or 0)
+                new_hi = base.hi
+                if h is not None:
+                    room = (base.hi - (base.lo + h)).as_const()
+                    if room is None:
+                        self.err(node, "slice end %d of a sequence of symbolic length" % h)
+                    new_hi = base.lo + h if room >= 0 else base.hi
+                return SeqV("family", var=base.var, lo=new_lo, hi=new_hi, elem=base.elem)
+        if isinstance(base, SeqV) and base.kind == "seqmap" and base.seq is not None:
+            # a map over a sequence, sliced: the map over the sliced sequence
+            inner = self.slice(base.seq, lo, hi, node)
+            if isinstance(inner, SeqV):
+                return SeqV("seqmap", var=base.var, seq=inner, elem=base.elem)
         if isinstance(base, Opaque):
             return Opaque(("slice", base.path, cint(lo), cint(hi)))
         self.err(node, "slice of %r" % (base,))
